@@ -15,8 +15,10 @@ The time stamp of a decoded data frame is left open by the property: `Cfg.stampL
 time (`false`, the library as it is) or the local receive time; `received c m` follows it and all
 theorems hold for both.
 
-Not covered: the forwarding policy of `NMEA2000.cpp` (`C17_forwarding` of the design) — forwarding
-calls `SendInActisenseFormat` unchanged, which is what these theorems are about.
+Forwarding through a node: the decisions of `ForwardMessage` (both overloads), the end of `SendMsg` and
+`HandleReceivedSystemMessage` are the model's `forwardOwn` / `forwardRx`; `C17_forwarding_policy` relates them
+to the documented options and `C17_forwarding_roundtrip` composes them with the round trip. The send gate,
+fast-packet reassembly and the PGN classification are other properties' models (C04, C02, C01).
 -/
 namespace N2k.C17
 open N2k.Acti
@@ -70,6 +72,69 @@ theorem C17_roundtrip_concat (c : Cfg) (s : RState) (hs : Reachable s) (he : s.c
   rw [hf] at hf'
   simp only [Except.ok.injEq, Prod.mk.injEq] at hf'
   exact ⟨s', hf, by rw [hp, hf'.1, hf'.2], hh⟩
+
+/-! ## forwarding through a node -/
+
+/-- **C17_forwarding_policy.** The decision functions transcribed from `tNMEA2000::ForwardMessage` (both
+overloads), the end of `SendMsg` and `HandleReceivedSystemMessage` agree with the documented options, for
+every mode value: an own message is forwarded iff forwarding is enabled, the mode is not send-only and
+own-message forwarding is on (node-only mode included); a non-system bus message from another source iff
+forwarding is enabled, the mode is a listening one (not node-only, not send-only) and the message is
+known or "only known" is off; a system message from the bus, in the modes that handle system messages,
+additionally needs the system-message option. -/
+theorem C17_forwarding_policy (f : FwdCfg) (known : Bool) :
+    forwardOwn f = (f.enable && f.mode != 3 && f.own) ∧
+    forwardRx f known false false = (f.enable && f.mode != 3 && f.mode != 1 && (known || !f.knownOnly)) ∧
+    (f.mode ≠ 3 → f.mode ≠ 4 → forwardRx f known true false = (f.system && f.enable && f.mode != 1)) := by
+  obtain ⟨mode, en, own, ko, sys⟩ := f
+  refine ⟨?_, ?_, ?_⟩
+  · simp only [forwardOwn, forwardMsg, forwardEnabled, bne]
+    generalize (mode == 1) = b1; generalize (mode == 3) = b3
+    cases b1 <;> cases b3 <;> cases en <;> cases own <;> rfl
+  · simp only [forwardRx, forwardMsg, forwardEnabled, bne]
+    generalize (mode == 1) = b1; generalize (mode == 3) = b3; generalize (mode == 4) = b4
+    cases b1 <;> cases b3 <;> cases b4 <;> cases en <;> cases own <;> cases ko <;> cases known <;> rfl
+  · intro h3 h4
+    have e3 : (mode == 3) = false := by simpa using h3
+    have e4 : (mode == 4) = false := by simpa using h4
+    simp only [forwardRx, forwardMsg, forwardEnabled, bne, e3, e4]
+    generalize (mode == 1) = b1
+    cases b1 <;> cases en <;> cases own <;> cases sys <;> cases ko <;> cases known <;> rfl
+
+/-- **C17_forwarding_roundtrip.** A valid message written by the library's message forwarding decodes to
+itself: for any sequence of forwarding decisions over valid messages (own messages after `SendMsg`,
+messages received from the bus), every forwarded message is written without fault as its frame, nothing is
+written for the others, and the library's reader fed the forward stream reports exactly the forwarded
+messages, in order, one per frame. -/
+theorem C17_forwarding_roundtrip (c : Cfg) (buf0 : List Nat) (hb : buf0.length = maxBuf)
+    (events : List (Bool × Msg)) (hv : ∀ e ∈ events, Valid e.2) :
+    (∀ e ∈ events, forwarded e.1 e.2 = .ok (if e.1 then frame (bodyOf e.2) else [])) ∧
+    ∃ s', feed c (RState.init buf0) (events.flatMap fun e => if e.1 then frame (bodyOf e.2) else [])
+      = .ok (s', ((events.filter (·.1)).map (·.2)).map (received c)) := by
+  constructor
+  · intro e he
+    unfold forwarded
+    cases h : e.1
+    · simp
+    · simp [encode_valid (hv e he)]
+  · have hflat : (events.flatMap fun e => if e.1 then frame (bodyOf e.2) else [])
+        = ((events.filter (·.1)).map (·.2)).flatMap fun m => frame (bodyOf m) := by
+      induction events with
+      | nil => rfl
+      | cons e t ih =>
+        have iht := ih (fun x hx => hv x (by simp [hx]))
+        cases h : e.1 <;> simp [List.flatMap_cons, h, iht]
+    rw [hflat]
+    obtain ⟨_, s', hf, _, _⟩ := C17_roundtrip_concat c (RState.init buf0) (.init buf0 hb) (Or.inr rfl)
+      ((events.filter (·.1)).map (·.2)) (by
+        intro m hm
+        simp only [List.mem_map, List.mem_filter] at hm
+        obtain ⟨e, ⟨he, _⟩, rfl⟩ := hm
+        exact hv e he)
+    exact ⟨s', hf⟩
+
+example : Valid (true, (⟨6, 129025, 255, 1, 123456, 8, [0x10, 0x10, 3, 4, 5, 6, 7, 0x10]⟩ : Msg)).2 := by
+  constructor <;> simp
 
 /-- **C17_pinned_encoder_wraps.** Why the encoder needed the `fix:` commit: with the declarations of the
 pinned tree (`uint8_t msgIdx`, 400 byte buffer) a valid message with 223 escape bytes makes the model
